@@ -4,3 +4,46 @@ pub mod record;
 pub mod history;
 #[cfg(feature = "hooks")]
 pub mod sched;
+
+/// `snapshot()` with the caller's state made hostile (errno cycling through values an unrelated
+/// system call may have left) and the work of the call metered: clock reads and sleeps are
+/// counted per call, and a call that exceeds `vworld::meter::LIMIT` of either is reported through
+/// `drain_unbounded()` (the interposers break the loop so that the call comes back).
+#[cfg(feature = "hooks")]
+pub mod metered {
+    use clock_bound_shm::{ClockErrorBound, ShmError, ShmReader};
+    use std::sync::atomic::{AtomicU64, Ordering};
+    use std::sync::Mutex;
+
+    static CALLS: AtomicU64 = AtomicU64::new(0);
+    static UNBOUNDED: Mutex<Vec<String>> = Mutex::new(Vec::new());
+
+    pub trait Metered {
+        fn msnapshot(&mut self) -> Result<&ClockErrorBound, ShmError>;
+    }
+
+    impl Metered for ShmReader {
+        fn msnapshot(&mut self) -> Result<&ClockErrorBound, ShmError> {
+            let n = CALLS.fetch_add(1, Ordering::Relaxed);
+            let e = vworld::meter::ERRNOS[(n % vworld::meter::ERRNOS.len() as u64) as usize];
+            vworld::meter::begin_call();
+            vworld::meter::set_errno(e);
+            let r = self.snapshot();
+            if let Some(msg) = vworld::meter::end_call() {
+                let mut u = UNBOUNDED.lock().unwrap_or_else(|p| p.into_inner());
+                if u.len() < 8 {
+                    u.push(format!("snapshot(): {} (errno was {} when the call was made, {} signals delivered so far)", msg, e, vworld::meter::SIGNALS_DELIVERED.load(Ordering::Relaxed)));
+                }
+            }
+            r
+        }
+    }
+
+    pub fn calls() -> u64 {
+        CALLS.load(Ordering::Relaxed)
+    }
+
+    pub fn drain_unbounded() -> Vec<String> {
+        std::mem::take(&mut *UNBOUNDED.lock().unwrap_or_else(|p| p.into_inner()))
+    }
+}
